@@ -43,6 +43,7 @@ Definition cx1 : cx := (r1, r0).
 Definition cx_add (z w : cx) : cx := (radd (fst z) (fst w), radd (snd z) (snd w)).
 Definition cx_mul (z w : cx) : cx :=
   (rsub (rmul (fst z) (fst w)) (rmul (snd z) (snd w)), radd (rmul (fst z) (snd w)) (rmul (snd z) (fst w))).
+Definition cx_sub (z w : cx) : cx := (rsub (fst z) (fst w), rsub (snd z) (snd w)).
 Definition cx_of_real (x : R) : cx := (x, r0).
 Definition cx_conj (z : cx) : cx := (fst z, rsub r0 (snd z)).
 (** squared magnitude |z|^2 (std::norm) *)
